@@ -71,6 +71,11 @@ BigPopPart(d) ==
      /\ Emit(c("ci_wilson"))
      /\ Emit(c("ci"))
      /\ Emit(c("stats_new"))
+     \* very few failures in a huge population (k = n - m)
+     /\ (j = 1) => \A m \in {2, 17, 60} :
+           /\ Emit(c("ci_wilson") @@ [kminus |-> m])
+           /\ Emit(c("ci") @@ [kminus |-> m])
+           /\ Emit(c("stats_new") @@ [kminus |-> m])
 
 \* every k of a few populations through the count-based and ratio-based entry points (the coverage of C12 is that of ci_wilson
 \* only if they all return its interval)
